@@ -73,10 +73,16 @@ pub fn op_bytes(buf: &[u8]) -> Value {
         if count > buf.len() + 8 { break }                 // the bound is checked by the specification; never loop here
         match t { Ok(t) => toks.push(t), Err(_) => { err = true } }
     }
+    // the same stream through a tokenizer that borrows a decoder (Decoder::tokens): it must be the same sequence of results
+    let mut owned: Vec<Option<Value>> = Vec::new();
+    for (i, t) in minicbor::decode::Tokenizer::new(buf).enumerate() { if i > buf.len() + 8 { break } owned.push(t.ok().map(|t| tok_json(&t))) }
+    let mut d = minicbor::Decoder::new(buf);
+    let mut borrowed: Vec<Option<Value>> = Vec::new();
+    for (i, t) in d.tokens().enumerate() { if i > buf.len() + 8 { break } borrowed.push(t.ok().map(|t| tok_json(&t))) }
     let mut e = minicbor::Encoder::new(Vec::new());
     let reenc_ok = e.tokens(toks.iter()).is_ok();
     let re = e.into_writer();
-    json!({"p":"run","toks": toks.iter().map(tok_json).collect::<Vec<_>>(), "err": err, "count": count,
+    json!({"p":"run","toks": toks.iter().map(tok_json).collect::<Vec<_>>(), "err": err, "count": count, "bcount": borrowed.len(), "bsame": owned == borrowed,
            "reenc": bytes(&re), "reenc_ok": reenc_ok})
 }
 
@@ -106,6 +112,7 @@ pub fn matches(name: &str, obs: &Value, exp: &Value) -> bool {
     if obs["p"] != "run" { return false }
     if name == "bytes" {
         if obs["count"].as_u64().unwrap_or(u64::MAX) > exp["maxcount"].as_u64().unwrap() { return false }
+        if obs["bcount"].as_u64().unwrap_or(u64::MAX) > exp["maxcount"].as_u64().unwrap() || obs["bsame"] != true { return false }
         if exp["pinned"] == true { return obs["err"] == false && obs["toks"] == exp["toks"] && obs["reenc_ok"] == true && obs["reenc"] == exp["reenc"] }
         true
     } else {
